@@ -3344,8 +3344,10 @@ check_freshness(coap_session_t *session, coap_pdu_t *rcvd, coap_pdu_t *sent,
         coap_delete_pdu(echo_pdu);
         goto not_sent;
       }
-      if (have_data) {
-        coap_add_data(echo_pdu, data_len, data);
+      if (have_data && !coap_add_data(echo_pdu, data_len, data)) {
+        /* Do not repeat the request without its body */
+        coap_delete_pdu(echo_pdu);
+        goto not_sent;
       }
       /* Need to track Observe token change if Observe */
       track_fetch_observe(echo_pdu, lg_crcv, 0, &echo_pdu->actual_token);
